@@ -49,6 +49,50 @@ fn gen_frame(w: &mut World, out: &mut Vec<u8>) {
             // ACK / ACK_ECN with ranges around plausible packet numbers
             let ecn = w.ch.chance("c03.ack.ecn", 1, 3);
             out.push(if ecn { 0x03 } else { 0x02 });
+            if w.ch.chance("c03.ack.arith", 1, 2) {
+                // range arithmetic walked down deliberately: each further range ends exactly at,
+                // one below, or two below packet number zero, or somewhere valid
+                let largest = bnd(w, &[1, 0, 2, 5, 20, 100]);
+                v(out, largest);
+                v(out, 0);
+                let n = 1 + w.ch.range_log("c03.ack.arith.blocks", 0, 6);
+                v(out, n);
+                let first = match w.ch.choose("c03.ack.arith.first", 4) {
+                    0 => 0,
+                    1 => largest,
+                    2 => largest.saturating_add(1),
+                    _ => w.ch.range("c03.ack.arith.first_v", 0, largest),
+                };
+                v(out, first);
+                let mut smallest = largest as i128 - first as i128;
+                for _ in 0..n {
+                    // next range's largest = smallest - gap - 2
+                    let target: i128 = match w.ch.choose("c03.ack.arith.target", 5) {
+                        0 => 0,
+                        1 => -1,
+                        2 => -2,
+                        3 => smallest - 2,
+                        _ => (smallest - 2) / 2,
+                    };
+                    let gap = (smallest - 2 - target).max(0) as u64;
+                    v(out, gap);
+                    let next_largest = smallest - gap as i128 - 2;
+                    let len = match w.ch.choose("c03.ack.arith.len", 4) {
+                        0 => 0,
+                        1 => next_largest.max(0) as u64,
+                        2 => (next_largest.max(0) as u64).saturating_add(1),
+                        _ => 1,
+                    };
+                    v(out, len);
+                    smallest = next_largest - len as i128;
+                }
+                if ecn {
+                    for _ in 0..3 {
+                        v(out, bnd(w, &[0, 1, 1 << 30]));
+                    }
+                }
+                return;
+            }
             let largest = bnd(w, &[0, 1, 5, 20, 100, 1 << 20, 1 << 40]);
             v(out, largest);
             v(out, bnd(w, &[0, 25, 1 << 20, (1 << 62) - 1]));
@@ -280,6 +324,18 @@ fn targeted_cases(server_max_bidi: u64) -> Vec<Targeted> {
     put_var(&mut f, 0);
     put_var(&mut f, 0);
     c.push(Targeted { name: "ack-of-unsent-packet", frames: f.clone(), codes: vec![PROTOCOL_VIOLATION] });
+    // ACK whose second range would end one / two below packet number zero
+    for (name, gap) in [("ack-range-one-below-zero", 0u64), ("ack-range-two-below-zero", 1u64)] {
+        f.clear();
+        f.push(0x02);
+        put_var(&mut f, 1); // largest
+        put_var(&mut f, 0); // delay
+        put_var(&mut f, 1); // one additional range
+        put_var(&mut f, 0); // first range: just packet 1
+        put_var(&mut f, gap);
+        put_var(&mut f, 0);
+        c.push(Targeted { name, frames: f.clone(), codes: vec![FRAME_ENCODING_ERROR] });
+    }
     // RETIRE_CONNECTION_ID for a sequence number never issued
     f.clear();
     f.push(0x19);
